@@ -118,7 +118,11 @@ func SexpToJson(exp Sexp) string {
 		if math.IsNaN(e.Val) || math.IsInf(e.Val, 0) {
 			return "null" // JSON has no NaN or infinities
 		}
-		return exp.SexpString(nil)
+		fs := exp.SexpString(nil)
+		if !strings.ContainsAny(fs, ".eE") {
+			fs += ".0" // stay a float on the way back
+		}
+		return fs
 	case *SexpSentinel:
 		if e == SexpNull {
 			return "null"
